@@ -384,6 +384,11 @@ impl DB {
         } else {
             db_fields_guard.version_set.get_prev_sequence_number()
         };
+        // The memtable must be captured under the lock together with the immutable memtable and the
+        // version. If it were loaded after the lock is released, a memtable rotation followed by a
+        // flush in between would leave the read looking at a set of sources that never existed
+        // together (new memtable, no immutable memtable, old version) and miss recent writes.
+        let memtable = self.memtable();
         let maybe_immutable_memtable = db_fields_guard.maybe_immutable_memtable.clone();
         let current_version = db_fields_guard.version_set.get_current_version();
 
@@ -398,7 +403,7 @@ impl DB {
                 let internal_key = InternalKey::new_for_seeking(key.to_vec(), snapshot);
 
                 // Check the memtable first
-                if let Ok(maybe_value) = self.memtable().get(&internal_key) {
+                if let Ok(maybe_value) = memtable.get(&internal_key) {
                     match maybe_value {
                         Some(value) => return Ok(Some(value.clone())),
                         None => {
